@@ -157,7 +157,7 @@ func pickLen(g *hx.Gen) int {
 }
 
 func gen(g *hx.Gen) {
-	n := g.Count(3000, 50000)
+	n := g.Count(3000, 20000)
 	r := g.R
 	for i := 0; i < n; i++ {
 		ln := pickLen(g)
